@@ -27,6 +27,7 @@ def rtl_summary(d, top, byte, rst=0, O=None, fetch_override=True):
     memsc = ev.scope(top + '.u_memory')
     nxt, pw = ev.next_state(proc)
     mnxt, mw = ev.next_state(memsc)
+    mw = list(mw) + [w_ for w_ in pw if str(w_[0]).startswith('$')]      # simulation tasks fired by the processor are effects too
     out = {'next': nxt, 'proc_writes': pw, 'mem_regs': mnxt, 'writes': mw,
            'syscall_valid': ev.net(ev.root, 'o_syscall_valid'), 'syscall': ev.net(ev.root, 'o_syscall'),
            'free': dict(ev.used_free)}
